@@ -498,6 +498,16 @@ size_t LLVMFuzzerCustomMutator(uint8_t *data, size_t size, size_t max, unsigned 
 	size_t r = 0, k, pos, c;
 	fz_mrng_s = 0x9E3779B97F4A7C15ULL * (seed + 1) | 1;
 	fz_mr();
+	if (size > FZ_DER_PREFIX && fz_mr() % 8 == 0) {
+		/* the selector bytes in front of the object: a few bytes among thousands, byte-level mutation rarely picks them */
+		size_t b = fz_mr() % FZ_DER_PREFIX;
+		switch (fz_mr() % 3) {
+		case 0: data[b] = (uint8_t)fz_mr(); break;
+		case 1: data[b] = (uint8_t)(data[b] + 1); break;
+		default: data[b] ^= (uint8_t)(1u << (fz_mr() % 8)); break;
+		}
+		return size;
+	}
 	if (size <= FZ_DER_PREFIX + 2 || (fz_mr() & 1))
 		return LLVMFuzzerMutate(data, size, max);
 	fz_der_scan(data, FZ_DER_PREFIX, size, -1, nodes, &cnt, 0);
